@@ -28,6 +28,7 @@ package cluster_info
 //@   loop 1
 //@     invariant 0 - 1 <= rangeindex && rangeindex < len(queue.ChildQueues)
 //@     invariant forall k in queues :: old(k in queues) && queues[k] == old(queues[k])
+//@     invariant nonNil(queues) && childPar(queues) && childComplete(queues)
 //@     invariant forall m map[common_info.QueueID]*queue_info.QueueInfo :: m != queues && old(allocated(m)) ==> dom(m) == old(dom(m))
 //@     invariant forall m map[common_info.QueueID]*queue_info.QueueInfo, k common_info.QueueID :: m != queues && old(allocated(m)) && old(k in m) ==> m[k] == old(m[k])
 //@     invariant forall j int :: 0 <= j && j < len(queue.ChildQueues) && queue.ChildQueues[j] in queues ==> queues[queue.ChildQueues[j]].ParentQueue == queueID && queueID != ""
@@ -39,6 +40,7 @@ package cluster_info
 //@   ensures [onlyDeletes] forall k in queues :: old(k in queues) && queues[k] == old(queues[k])
 //@   ensures [deletedHaveDeletedParent] forall k common_info.QueueID :: old(k in queues) && !(k in queues) ==> k == queueID || (old(queues[k]).ParentQueue != "" && !(old(queues[k]).ParentQueue in queues))
 //@   ensures [noNewOrphans] forall k in queues :: queues[k].ParentQueue != "" && old(queues[k].ParentQueue in queues) ==> queues[k].ParentQueue in queues
+//@   ensures [shape] nonNil(queues) && childPar(queues) && childComplete(queues)
 //@ end
 
 // C10: "missing parents or queues": after the pass every remaining queue has parent "" or a parent
@@ -51,6 +53,7 @@ package cluster_info
 //@   modifies queues[*]
 //@   loop 1
 //@     invariant forall k in queues :: old(k in queues) && queues[k] == old(queues[k])
+//@     invariant nonNil(queues) && childPar(queues) && childComplete(queues)
 //@     invariant childrenExist(queues)
 //@     invariant forall m map[common_info.QueueID]*queue_info.QueueInfo :: m != queues && old(allocated(m)) ==> dom(m) == old(dom(m))
 //@     invariant forall m map[common_info.QueueID]*queue_info.QueueInfo, k common_info.QueueID :: m != queues && old(allocated(m)) && old(k in m) ==> m[k] == old(m[k])
@@ -60,4 +63,41 @@ package cluster_info
 //@   ensures [childrenPresent] childrenExist(queues)
 //@   ensures [onlyDeletes] forall k in queues :: old(k in queues) && queues[k] == old(queues[k])
 //@   ensures [onlyOrphansPruned] forall k common_info.QueueID :: old(k in queues) && !(k in queues) ==> old(queues[k]).ParentQueue != "" && !(old(queues[k]).ParentQueue in queues)
+//@   ensures [shape] nonNil(queues) && childPar(queues) && childComplete(queues)
+//@ end
+
+// Builds the child lists from the parent references: afterwards a queue is listed by q iff q is its
+// (non-empty, existing) parent. Only ChildQueues fields change; the map itself does not.
+//@ func updateQueueChildren
+//@   props C10
+//@   requires keyed(queues) && noChildren(queues)
+//@   modifies family(queues[""].ChildQueues)
+//@   loop 1
+//@     invariant keyed(queues)
+//@     invariant forall k in queues :: forall i int :: 0 <= i && i < len(queues[k].ChildQueues) ==> queues[k].ChildQueues[i] in queues && queues[queues[k].ChildQueues[i]].ParentQueue == k && k != ""
+//@     invariant forall c in visited :: queues[c].ParentQueue != "" && queues[c].ParentQueue in queues ==> queue_info.isChild(queues[queues[c].ParentQueue], c)
+//@   ensures [shape] keyed(queues) && childPar(queues) && childComplete(queues)
+//@   ensures [childrenPresent] childrenExist(queues)
+//@ end
+
+// C10 top-level for the queue graph: "For any content of the API objects the scheduler reads -
+// including ... queue parent cycles or self-parents, missing parents or queues ... - opening a session
+// and running all actions terminates without panicking."  What every consumer of snapshot.Queues
+// relies on: (1) a non-empty ParentQueue is a key of the map, (2) every listed child is a key of the
+// map, (3) child lists and parent references agree, (4) only orphans and their descendants are
+// dropped, (5) the parent relation is acyclic (parent-chain loops terminate).
+// (1)-(4) are proved. (5) is NOT established by the code: see the two `lemma [finding-queue-cycles-*]`
+// clauses (first-order necessary conditions of acyclicity: no 1-cycle, no 2-cycle).
+//@ func UpdateQueueHierarchy
+//@   props C10
+//@   requires keyed(queues) && noChildren(queues)
+//@   modifies queues[*], family(queues[""].ChildQueues)
+//@   ensures [parentsPresent] wfParents(queues)
+//@   ensures [childrenPresent] childrenExist(queues)
+//@   ensures [childrenNameParent] childPar(queues)
+//@   ensures [parentsListChildren] childComplete(queues)
+//@   ensures [entriesKept] forall k in queues :: queues[k] != nil && old(k in queues) && queues[k] == old(queues[k])
+//@   ensures [onlyOrphansPruned] forall k common_info.QueueID :: old(k in queues) && !(k in queues) ==> old(queues[k]).ParentQueue != "" && !(old(queues[k]).ParentQueue in queues)
+//@   lemma [finding-queue-cycles-self] forall k in queues :: queues[k].ParentQueue != k
+//@   lemma [finding-queue-cycles-two] forall k in queues :: queues[k].ParentQueue != "" && queues[k].ParentQueue != k ==> queues[queues[k].ParentQueue].ParentQueue != k
 //@ end
